@@ -73,6 +73,9 @@ def workloads(tier):
     add('orig-style names between patches on one file', [[(tq.t_mod, 'f'), (tq.t_mod, 'd/g')], [(tq.t_orig, 'f')], [(tq.t_mod, 'f', 1, 0, 0), (tq.t_mod, 'd/h')]], both)
     add('old name removed earlier', [[(tq.t_delete, 'f', False), (tq.t_mod, 'd/g')], [(tq.t_viaold, 'f', 'd/h')], [(tq.t_mod, 'd/h', 1, 0, 0)]])
     add('modify, rename, modify renamed', [[(tq.t_mod, 'f'), (tq.t_mod, 'd/g')], [(tq.t_rename, 'f', 'n', True)], [(tq.t_mod, 'n', 1, 0, 4), (tq.t_mod, 'd/g', 1, 0, 0)]])
+    # a reject that belongs into a directory created by another worker during the same push
+    add('two creates in one new directory, then a failing patch there', [[(tq.t_create, 'x/y/n', False), (tq.t_create, 'x/y/m', False), (tq.t_mod, 'f')], [(tq.t_create_over, 'x/y/n'), (tq.t_mod, 'd/g')]], both)
+    add('directory emptied by one worker, failing patch of another in it', [[(tq.t_delete, 'd/g', False)], [(tq.t_delete, 'd/h', False), (tq.t_mod, 'f')], [(tq.t_missing, 'd/n'), (tq.t_mod, 'e/i')]])
     # all-success with backups (save order between workers)
     add('success, three workers', [[(tq.t_mod, 'f'), (tq.t_mod, 'd/g')], [(tq.t_mod, 'd/h'), (tq.t_mode, 'f', True)]], ({'backup': 'always'},))
     return m0, W
@@ -105,7 +108,7 @@ def run(tier, seed):
                 generic.append(s)
         tasks += [(m0, 'generic: ' + tq.describe_series(s), s, {'backup': 'onfail', 'quiet': True}, 2, 1, 600) for s in generic]
     # sanity of the thread-count argument: N = 16 on the default schedules
-    tasks += [(m0, label, s, cfg, 16, 0, 50) for (label, s, cfg) in W[:: (4 if tier == 'quick' else 1)]]
+    tasks += [(m0, label, s, cfg, 16, 0, 200) for (label, s, cfg) in W[:: (4 if tier == 'quick' else 1)]]
     results = wsweep.pmap(case, tasks)
     cov = res.coverage
     tot = {'schedules': 0, 'traces': 0, 'preempted': 0, 'ran_ahead': 0}
@@ -121,8 +124,12 @@ def run(tier, seed):
             active += 1
         if len(r['outcomes']) > 1:
             outcomes_multi += 1
-        if r['capped']:
+        if r['capped'] and r['threads'] != 16:
             cov['exhaustive'] = False
+        if r['capped'] and r['threads'] == 16:
+            # the N = 16 runs are a sanity check of the thread-count argument on the serial schedules only; with many
+            # active workers there are k! serial orders per phase and only the first 200 are run
+            cov['n16_sanity_explorations_capped'] = cov.get('n16_sanity_explorations_capped', 0) + 1
         per.append({'workload': r['label'], 'threads': r['threads'], 'schedules': r['schedules'], 'distinct_traces': r['traces'], 'distinct_outcomes': len(r['outcomes']),
                     'max_decisions': r['max_decisions'], 'active_workers': r['workers'], 'capped': r['capped']})
         for mode, w in r['violations']:
